@@ -102,7 +102,7 @@ BlockID  == TStruct(<<F(Hash), F(TStruct(<<F(U32), F(Hash)>>))>>)
 Header   == TStruct(<<F(U64), F(TStruct(<<>>)), F(U64), F(U64), F(BlockID), F(Addr),
                       F(Hash), F(Hash), F(Hash), F(Hash), F(Hash), F(Hash), F(Hash)>>)
 
-ScalarNames == <<"u8", "u16", "u32", "u64", "big", "bool", "bytes", "string", "arr1", "arr2", "arr20", "raw", "iface">>
+ScalarNames == <<"uint", "bigv", "u8", "u16", "u32", "u64", "big", "bool", "bytes", "string", "arr1", "arr2", "arr20", "raw", "iface">>
 StructNames == <<"Inner", "Nested", "OptS", "OptP", "TailS", "NilS", "NilX", "PtrS", "Rows", "ArrU",
                  "IgA", "IgB", "IgT", "IgN", "OptIn", "IgE", "OnlyOpt", "IgOnly",
                  "pbool", "pu16", "pstr", "pInner", "PtrPlain", "PtrNil", "PtrNilS", "PtrNilL", "PtrOpt", "PtrB",
@@ -111,6 +111,7 @@ ChainNames  == <<"tx", "log", "receipt", "sreceipt", "blockinfo", "account", "sl
 
 Schema(name) ==
   CASE name = "u8" -> U8 [] name = "u16" -> U16 [] name = "u32" -> U32 [] name = "u64" -> U64
+    [] name = "uint" -> U64 [] name = "bigv" -> TBig          \* Go uint (64 bit), big.Int by value
     [] name = "big" -> TBig [] name = "bool" -> TBool
     [] name = "bytes" -> TBytes [] name = "string" -> TBytes
     [] name = "arr1" -> TArr(1) [] name = "arr2" -> TArr(2) [] name = "arr20" -> TArr(20)
@@ -130,12 +131,19 @@ Schema(name) ==
     [] name = "header" -> Header
 
 (************************* boundary values chosen by TLC **********************)
-\* integers: 0, 1, 0x7f, 0x80, 0xff, 0x100, all-ones, and for 8 bytes 2^56
-UintVals(n) == {<<>>, <<1>>, <<127>>, <<128>>, <<255>>}
-               \cup (IF n >= 2 THEN {<<1, 0>>, Rep(255, n)} ELSE {})
-               \cup (IF n = 8 THEN {<<1>> \o Rep(0, 7)} ELSE {})
-\* ... 2^64, 32 bytes (the size of Stream.uintbuf), 33 bytes, 56 bytes (long header)
-BigVals == UintVals(8) \cup {<<1>> \o Rep(0, 8), Rep(255, 32), <<1>> \o Rep(0, 32), Rep(127, 56)}
+\* Integers ARE their big-endian digit strings (base 256), so every power of 256 and its two
+\* neighbours can be written down without arithmetic:
+\*     256^k - 1 = ff..ff (k digits)   256^k = 01 00..00 (k zeros)   256^k + 1 = 01 00..00 01
+\* (the encoder's putint / intsize and the decoders' size switches branch exactly there).
+P256m(k) == Rep(255, k)
+P256(k)  == <<1>> \o Rep(0, k)
+P256p(k) == <<1>> \o Rep(0, k - 1) \o <<1>>
+\* an n-byte unsigned type: 0, 1, 0x7f, 0x80 and, for every k, the three numbers as far as they fit
+UintVals(n) == {<<>>, <<1>>, <<127>>, <<128>>}
+               \cup {P256m(k) : k \in 1..n} \cup {P256(k) : k \in 1..(n - 1)} \cup {P256p(k) : k \in 1..(n - 1)}
+\* big.Int: the same for k = 1..9 (k = 8: 2^64 - 1, 2^64, 2^64 + 1), 16 and 32 (32 bytes is the
+\* size of Stream.uintbuf), and a 56-byte number (long header)
+BigVals == UintVals(8) \cup UNION {{P256m(k), P256(k), P256p(k)} : k \in {8, 9, 16, 32}} \cup {Rep(127, 56)}
 BytesVals == {<<>>, <<0>>, <<127>>, <<128>>, <<0, 0>>, Rep(1, 55), Rep(0, 56)}
 ArrVals(n) == IF n = 1 THEN {<<0>>, <<127>>, <<128>>, <<255>>}
               ELSE {Rep(0, n), Rep(255, n), <<1>> \o Rep(0, n - 1), Rep(0, n - 1) \o <<1>>}
